@@ -423,6 +423,9 @@ class SrvExec(Exec):
             return None
         if got[0] == 'BACKLOGFULL':
             immediate = got[1]
+            if ('timeouts' in orc or 'answers' in orc) and timeout >= 100 and not bp:
+                return ('request-starved', f'call({x}) without backpressure and with an unbounded deadline was never admitted '
+                        f'(ServerBacklogFull after waiting {t1 - t0:.1f} s)')
             if 'backlog' in orc:
                 if bp and not immediate:
                     return ('backpressure-waited', f'call({x}, backpressure=True) waited before ServerBacklogFull')
@@ -436,6 +439,11 @@ class SrvExec(Exec):
                         return ('spurious-backlog-full', f'call({x}) rejected although at most {len(cfg["calls"])} '
                                 f'requests can be in flight with capacity {cfg["capacity"]}')
             return None
+        if ('timeouts' in orc or 'answers' in orc) and timeout >= 100 and t1 - t0 > 500:
+            # no finite deadline in any harness exceeds 50 virtual seconds, and far timers only fire when nothing else can
+            # run: a request that took this long sat waiting although the server was idle (lost wake-up)
+            return ('request-stalled', f'call({x}) with an unbounded deadline was only answered after {t1 - t0:.1f} virtual '
+                    f'seconds: it waited although nothing else was going on')
         # a value or an exception: must be this request's own outcome
         if 'answers' in orc or 'errors' in orc or 'timeouts' in orc:
             if got != want:
